@@ -76,6 +76,18 @@ def runCase : CaseFn := fun c => Id.run do
           else if s != obs then
             out := out.push s!"DIFF C16 case {c.num} line {ln}: dump impl=<{obs}> spec=<{s}>"
             diverged := true
+    else if ws == ["psize"] || ws == ["plen"] then
+      -- Size()/Len() called while other callers are in flight
+      match words obs with
+      | ["held1", "blocked"] => pure ()
+      | "held1" :: rest =>
+        out := out.push s!"ORACLE-FAIL C16 case {c.num} line {ln}: shape=read-during-critical-section {op} returned <{" ".intercalate rest}> while another call was inside its critical section (a value no resident set ever had may be reported)"
+      | ["held0", "v", n] =>
+        let want := if ws == ["psize"] then st.size else st.ll.length
+        if !diverged && nat! n != want then
+          out := out.push s!"DIFF C16 case {c.num} line {ln}: {op} impl=<{n}> model=<{want}>"
+          diverged := true
+      | _ => out := out.push s!"ORACLE-FAIL C16 case {c.num} line {ln}: {op} did not return although the mutex was free ({obs})"
     else if ws == ["status"] then
       out := out.push s!"ORACLE-FAIL C16 case {c.num} line {ln}: schedule ended in {obs} (cache unusable)"
     else
